@@ -525,7 +525,17 @@ def r5_identical_content(repo=None):
                 isinstance(v, ast.Call) and pyfront.call_name(v) == "os.path.samefile"
                 and [norm(ast.unparse(a)) for a in v.args] == [norm(ast.unparse(a)) for a in c.args[:2]]
                 for v in p_.values[:p_.values.index(c)])
-            site = "%s:%s %s `%s`" % (m.rel, c.lineno, q, norm(ast.unparse(p_ if same_first else c))[:90])
+            if not same_first:
+                # ... or an earlier statement: `if os.path.samefile(src, dest): return True` on every path to the comparison
+                gq = m.flat(q).cfg()
+                cn_ = [n for n in gq.nodes if n.ast is not None and any(x is c for x in pyfront.node_calls(n))]
+                sf_ = [n.id for n in gq.nodes if n.kind == "cond" and n.ast is not None and any(
+                    isinstance(v, ast.Call) and pyfront.call_name(v) == "os.path.samefile"
+                    and [norm(ast.unparse(a)) for a in v.args] == [norm(ast.unparse(a)) for a in c.args[:2]] for v in ast.walk(n.ast))
+                    and not any(x is c for x in pyfront.node_calls(n))]
+                if cn_ and sf_ and cn_[0].id not in gq.reach([gq.entry.id], avoid=sf_, skip_labels=("exc",)):
+                    same_first = True
+            site = "%s:%s %s `%s`" % (m.rel, c.lineno, q, norm(ast.unparse(p_ if same_first and isinstance(p_, ast.BoolOp) else c))[:90])
             if same_first:
                 r.ok(site, "a destination that is the same file as the source (hard link) counts as mirrored before contents are compared")
             else:
@@ -599,8 +609,54 @@ def r5_identical_content(repo=None):
     return r
 
 
+def r6_handler_keeps_nothing_between_events(repo=None):
+    """'repeated, late or stale events corrupt or duplicate nothing' - and lose nothing: whether a file is mirrored is decided from
+    the source and the destination as they are when its event arrives (missing, or not the same content).  A mirror handler that
+    remembers something from earlier events (the newest file seen per directory, a set of paths done) makes the decision depend
+    on the order of the events: a late event for an older file is taken for a repeat and the file is never mirrored.  Who-may-store
+    rule: no method of DigitalRFMirrorHandler other than its constructor stores an attribute of self or changes a container held
+    in one."""
+    r = Rule("C17.R6", "the mirror handler keeps no state from one event to the next")
+    m = pyfront.mod("mirror", repo)
+    meths = m.methods(HD)
+    n = 0
+    MUT = ("add", "append", "extend", "insert", "update", "setdefault", "pop", "popitem", "remove", "discard", "clear", "appendleft")
+    for name, f in meths.items():
+        if name == "__init__":
+            continue
+        n += 1
+        bad = None
+        for x in ast.walk(f):
+            if isinstance(x, (ast.Assign, ast.AugAssign, ast.AnnAssign, ast.Delete)):
+                tg = x.targets if isinstance(x, (ast.Assign, ast.Delete)) else [x.target]
+                for t in tg:
+                    base = t
+                    while isinstance(base, ast.Subscript):
+                        base = base.value
+                    if isinstance(base, ast.Attribute) and isinstance(base.value, ast.Name) and base.value.id == "self":
+                        bad = (x, "self.%s" % base.attr)
+            elif isinstance(x, ast.Call) and isinstance(x.func, ast.Attribute) and x.func.attr in MUT:
+                base = x.func.value
+                while isinstance(base, ast.Subscript):
+                    base = base.value
+                if isinstance(base, ast.Attribute) and isinstance(base.value, ast.Name) and base.value.id == "self":
+                    bad = (x, "self.%s" % base.attr)
+        if bad:
+            x, what = bad
+            r.violation(m.rel, "%s.%s" % (HD, name), norm(ast.unparse(x))[:70], "the handler remembers `%s` from one event to the next: what it does "
+                        "for a file then depends on which events came before - a late or re-ordered event for a file it has not mirrored "
+                        "can be taken for a repeat and the file never reaches the destination (in move mode it stays in the source for "
+                        "good)" % what, line=x.lineno)
+        else:
+            r.ok("%s:%s %s.%s" % (m.rel, f.lineno, HD, name), "stores nothing on self")
+    if n < 4:
+        raise AnalysisError("%s: only %d methods besides the constructor" % (HD, n))
+    r.guard(4)
+    return r
+
+
 def rules(repo=None):
-    return [lambda: r1_staged_publication(repo), lambda: r2_errors_contained(repo), lambda: r3_handler_configuration(repo),
+    return [lambda: r6_handler_keeps_nothing_between_events(repo), lambda: r1_staged_publication(repo), lambda: r2_errors_contained(repo), lambda: r3_handler_configuration(repo),
             lambda: r4_replay_existing(repo), lambda: r5_identical_content(repo)]
 
 
@@ -624,7 +680,9 @@ EXPLANATION = (
     ' mirror function every os.link lies in the body of a try whose OSError handler copies - a link made in a sibling '
     'except clause is not covered by the copy fallback. R3 judges only values it evaluated to constants; tables, partials'
     ' and unresolved mappings are not decided. R2 also: a mirror handler that does not define on_modified (and does not '
-    'inherit it inside the package) does not mirror modifications.')
+    'inherit it inside the package) does not mirror modifications. R6: no method of the mirror handler other than its '
+    'constructor stores an attribute of self or mutates a container held in one (the decision to mirror depends on source'
+    ' and destination only, not on earlier events).')
 TECHNIQUE = ('Python ast; complete operation table of mirror_to_dest; CFG ordering; abstract execution of the constructor over all option rows; regular-language emptiness for tmp. names')
 ASSUMPTIONS = ["os.rename within the destination directory is atomic", "shutil.copy2/os.link produce a complete file before returning"]
 FILES = [MR, "python/digital_rf/list_drf.py", "python/digital_rf/ringbuffer.py"]
